@@ -115,6 +115,10 @@ func (h *harnessSpec) options(tier string) sx.Options {
 	}
 	if v := get("maxseconds"); v != "" {
 		o.MaxSeconds, _ = strconv.Atoi(v)
+	} else if tier == "thorough" {
+		o.MaxSeconds = 3000
+	} else {
+		o.MaxSeconds = 900
 	}
 	if v := get("maxpaths"); v != "" {
 		o.MaxPaths, _ = strconv.Atoi(v)
